@@ -358,10 +358,13 @@ fn judge_answer(via: &str, exp: &Exp, ans: &Ans, req: &Req) -> Option<(String, S
                         let gi = proposed.iter().position(|p| trim_uid(p) == ts);
                         return Some((
                             format!(
-                                "{}|ctx|accepted-ts|expected=proposed#{}|got={}",
+                                "{}|ctx|accepted-ts|not-the-first-eligible|got={}",
                                 via,
-                                ei,
-                                gi.map(|g| format!("proposed#{}", g)).unwrap_or("not-proposed".into())
+                                match gi {
+                                    Some(g) if g > *ei => "a-later-proposed-one",
+                                    Some(_) => "an-earlier-proposed-one",
+                                    None => "not-proposed",
+                                }
                             ),
                             format!("context {}: accepted transfer syntax {:?}, expected the first eligible proposed one {:?} (proposed {:?})", id, ts, ets, proposed),
                         ));
